@@ -1,4 +1,4 @@
-// Package mixsim hosts checks that draw on more than one engine. C19 (unambiguous sign bytes and
+// Package mixsim hosts checks that draw on more than one engine. C14 and C19 draw on two engines. C19 (unambiguous sign bytes and
 // keys, untrusted bytes never crash a node) is decided on the consensus engine with corrupted
 // messages (bftsim) and on the full-node engine with corrupted transactions and block messages
 // (nodesim); the tape chooses the engine per run.
@@ -22,8 +22,22 @@ func runC19(c *simkit.Ctx) {
 	nodesim.RunChain(c)
 }
 
+// C14: evidence soundness is decided on the consensus engine (what did each correct replica really
+// sign vs. who ends up in a slash list); "once per (validator, height)" and the per-committee cap
+// are decided on the full-node engine's state machine.
+func runC14(c *simkit.Ctx) {
+	if c.T.Chance(3, 5) {
+		c.Probe("engine_bftsim")
+		bftsim.RunSafety(c)
+		return
+	}
+	c.Probe("engine_nodesim")
+	nodesim.RunChain(c)
+}
+
 func TestWorker(t *testing.T) {
 	simkit.WorkerMain(t, "mixsim", map[string]simkit.EngineSpec{
 		"C19": {Run: runC19, Bubble: true, LeakOK: true},
+		"C14": {Run: runC14, Bubble: true, LeakOK: true},
 	})
 }
